@@ -102,6 +102,10 @@ import (
 //	calls       pkg.F(…) of a listed function of another package; `return f(…)` with a multi-valued f; a receiver-mutating
 //	            method of an imported group inside an argument list is moved in front of the statement, accepted only if
 //	            the statement reads the receiver's root variable through other fields only (order of evaluation).
+//
+// Slice-walker grammar (group pure-extract: the hand-written parsers of src/stgutg/pdu.go; code and grammar description in
+// pure_extract.go, runtime pure_extract_rt.go → Gen/PureRtSl.lean, self-test pureselftest/ext.go → `gen pure-selftest-ext`):
+// byte slices WITH their capacity, `for cond` loops on fuel, labelled break / continue, package-level constant tables.
 func init() {
 	for _, g := range puGroups {
 		g := g
